@@ -13,7 +13,11 @@ Termination ACROSS suspensions for ANY number of workers under a FAIR scheduler 
 * `fair_productive`: a run that is fair with window `K` (`FairW`: every `K` consecutive steps resume every worker that is not
   over) and ends in a state where somebody is not over and nobody is dead has at least `⌊length / K⌋` productive steps.
 * `fair_run_over`: hence after `(24·resultBound g + |workers| + 1)·K` steps everybody is done, or somebody is dead.
-* the same with a virtual clock instead of windows (`Timed`): see the second half of the file.
+* `Lively`/`lively_run_over`: the composition, for any run in which every `K` consecutive steps that end alive contain a
+  productive step.
+* the same with a virtual clock instead of windows (`Timed`, `timed_lively`, `timed_run_over`): at most
+  `|workers|·(T/q + 1)` consecutive back-off steps.
+* `resume_sleep`: a step that ends in the back-off sleep announces a sleep of at least 0.1 s as its last event.
 
 Everything lives in the namespace `I2N.Trav.Fair`.
 -/
@@ -667,5 +671,224 @@ theorem timed_run_over {g : Graph} {ncls : Nat} (st : StaticN g ncls) (hnr : noR
     rw [init_pc] at htv; cases htv
   exact lively_run_over st hnr hcl store _ (Nat.succ_pos _) _ ok
     (timed_lively st q T hq steps wake _ (ginvN_init g ncls store) ok ht hd) (by rw [List.length_map]; exact hlen)
+
+/-! ## the sleep of a back-off step: the model's own duration
+
+A step that ends in the back-off sleep emits, as its LAST event, `Event.sleep wid k` with `k ≥ 10` hundredths of a second
+(`round(max(timeout·max_tries/1000, 0.1), 2)` in the code): the hypothesis `q ≤ d` of `Timed` with `q = 10` is met when `d`
+is the duration the model announces. -/
+
+/-- an iteration that suspends in the back-off sleep emits exactly the sleep event, of at least 0.1 s -/
+def SleepOK (wid : String) (w : Nat) (r : Step) : Prop :=
+  isSuspend r.2.2 = true → (r.1.wd w).pc = .bounce → ∃ k, 10 ≤ k ∧ r.2.1 = [Event.sleep wid k]
+
+theorem SleepOK.quiet (wid : String) (w : Nat) (s' : State) (e : List Event) (f : Flow) (h1 : isSuspend f = false) :
+    SleepOK wid w (s', e, f) := fun hs => by rw [h1] at hs; cases hs
+
+theorem iter_sleep (gv : Graph) (s : State) (w : Nat) (hw : w < s.workers.length) :
+    SleepOK (gv.worker w).id w (iter gv s w) := by
+  have htrav : ∀ next prev dir, SleepOK (gv.worker w).id w (traverseNode gv s w next prev dir) := by
+    intro next prev dir hs hb
+    obtain ⟨s1, ph, h1, h2⟩ := traverseNode_suspend gv s w _ prev dir hs
+    rw [h1, startTest_pc gv s1 _ w ph dir (by rw [h2]; exact hw)] at hb
+    cases hb
+  unfold iter
+  dsimp only
+  split
+  · split
+    · exact SleepOK.quiet _ w _ _ _ rfl
+    · exact SleepOK.quiet _ w _ _ _ rfl
+  · cases hl : (s.wd w).path.getLast? with
+    | none => exact SleepOK.quiet _ w _ _ _ rfl
+    | some next =>
+      dsimp only
+      split
+      · cases hp : pickChild gv s next w with
+        | none => exact SleepOK.quiet _ w _ _ _ rfl
+        | some r =>
+          obtain ⟨c, s2⟩ := r
+          exact SleepOK.quiet _ w _ _ _ rfl
+      · split
+        · -- the back-off branch
+          intro _ _
+          exact ⟨_, Nat.le_max_right _ _, rfl⟩
+        · split
+          · split
+            · exact htrav _ _ .up
+            · cases hp : pickParent gv s next w with
+              | none => exact SleepOK.quiet _ w _ _ _ rfl
+              | some r =>
+                obtain ⟨c, s2⟩ := r
+                exact SleepOK.quiet _ w _ _ _ rfl
+          · split
+            · split
+              · cases hp : pickParent gv s next w with
+                | none => exact SleepOK.quiet _ w _ _ _ rfl
+                | some r =>
+                  obtain ⟨c, s2⟩ := r
+                  exact SleepOK.quiet _ w _ _ _ rfl
+              · exact htrav _ _ .down
+            · exact SleepOK.quiet _ w _ _ _ rfl
+
+theorem iterL_sleep (g : Graph) (s : State) (w : Nat) (hw : w < s.workers.length) :
+    SleepOK (g.worker w).id w (iterL g s w) := by
+  unfold iterL
+  split
+  · rw [← vis_worker g s w]
+    exact iter_sleep (vis g s) s w hw
+  · dsimp only
+    obtain ⟨_, h2, _, _⟩ := prepare_frame g s w
+    rw [← vis_worker g (prepare g s w) w]
+    exact iter_sleep (vis g (prepare g s w)) (prepare g s w) w (by rw [h2]; exact hw)
+
+theorem iterL_workersLen (g : Graph) (hsym : EdgeSym g) (s : State) (w : Nat) :
+    (iterL g s w).1.workers.length = s.workers.length := by
+  obtain ⟨s1, hs1, _, hok⟩ := iterL_ok g hsym s w
+  have h1 : s1.workers.length = s.workers.length := by
+    rcases hs1 with h | h
+    · rw [h]
+    · rw [h]; exact (prepare_frame g s w).2.1
+  rcases hok with ⟨he, _⟩ | ⟨_, _, _, he, _⟩
+  · rw [he.workersLen, h1]
+  · rw [he.workersLen, h1]
+
+theorem getLast?_append_singleton (l : List Event) (x : Event) : (l ++ [x]).getLast? = some x := by simp
+
+/-- the loop: if it ends in the back-off sleep, its last event is the sleep, of at least 0.1 s -/
+theorem runLoop_sleep (g : Graph) (hsym : EdgeSym g) (w fuel : Nat) (s : State) (evs : List Event)
+    (hw : w < s.workers.length) (hpc : fuel = 0 → (s.wd w).pc ≠ .bounce) :
+    ((runLoop g w fuel s evs).1.wd w).pc = .bounce →
+      ∃ k, 10 ≤ k ∧ (runLoop g w fuel s evs).2.getLast? = some (Event.sleep (g.worker w).id k) := by
+  induction fuel generalizing s evs with
+  | zero => intro hb; exact absurd hb (hpc rfl)
+  | succ fuel ih =>
+    unfold runLoop
+    dsimp only
+    have hwd := wd_setWd_eq s w (fun d => { d with pc := .loop }) hw
+    have hw0 : w < (s.setWd w (fun d => { d with pc := .loop })).workers.length := by
+      rw [workers_length_setWd]; exact hw
+    have hlen := iterL_workersLen g hsym (s.setWd w (fun d => { d with pc := .loop })) w
+    have hcp := iterL_contPc g hsym (s.setWd w (fun d => { d with pc := .loop })) w
+    have hsl := iterL_sleep g (s.setWd w (fun d => { d with pc := .loop })) w hw0
+    have hend := iterL_end g (s.setWd w (fun d => { d with pc := .loop })) w hw0
+    split
+    · next s1 e heq =>
+      rw [heq] at hlen hcp
+      refine ih s1 _ (by rw [hlen]; exact hw0) (fun _ => ?_)
+      have := hcp rfl
+      dsimp only at this
+      rw [this, hwd]; simp
+    · next s1 e heq =>
+      rw [heq] at hsl
+      intro hb
+      obtain ⟨k, hk, he⟩ := hsl rfl hb
+      dsimp only at he
+      exact ⟨k, hk, by rw [he]; exact getLast?_append_singleton _ _⟩
+    · next s1 e heq =>
+      rw [heq] at hend
+      intro hb
+      have := hend.exit rfl
+      dsimp only at this hb
+      rw [this] at hb; cases hb
+    · next s1 e what heq =>
+      rw [heq] at hlen
+      intro hb
+      dsimp only at hb
+      rw [wd_setWd_eq s1 w _ (by rw [hlen]; exact hw0)] at hb
+      cases hb
+
+theorem continueAfter_sleep (g : Graph) (hsym : EdgeSym g) (w n : Nat) (phase : Phase) (dir : Dir) (fuel : Nat)
+    (hf : 0 < fuel) (s : State) (ok : Bool) (evs : List Event) (h : PInv g s) (hpcw : (s.wd w).pc.node? = some n) :
+    ((resumeTest.continueAfter g w n phase dir fuel s ok evs).1.wd w).pc = .bounce →
+      ∃ k, 10 ≤ k ∧ (resumeTest.continueAfter g w n phase dir fuel s ok evs).2.getLast? =
+        some (Event.sleep (g.worker w).id k) := by
+  obtain ⟨hid, hlast, hlen⟩ := h.testOwn w n hpcw
+  have hw : w < s.workers.length := lt_of_path_ne_nil s w (by intro h0; rw [h0] at hlen; simp at hlen)
+  unfold resumeTest.continueAfter
+  dsimp only
+  split
+  · intro hb
+    exfalso
+    have : ((startTest g s n w .main dir).1.wd w).pc = .bounce := hb
+    rw [startTest_pc g s n w .main dir hw] at this
+    cases this
+  · have q2 : Qt w none s (if (phase == Phase.pre) = true then
+          s.setNd n (fun d => { d with results := d.results ++ (s.wd w).preResults.drop d.results.length })
+        else s) := by
+      split
+      · refine qt_setNd w none s n _ ?_
+        intro d; exact Or.inl rfl
+      · exact Qt.refl _ _ _
+    obtain ⟨_, _, hlF, hnF, hwF, _⟩ := h.finish hpcw q2
+    generalize finishTraverse (if (phase == Phase.pre) = true then
+          s.setNd n (fun d => { d with results := d.results ++ (s.wd w).preResults.drop d.results.length })
+        else s) n w = sF at hlF hnF hwF
+    obtain ⟨a, _, _, _⟩ := afterTraverse_ok (vis g sF) (edgeSym_vis g sF hsym) sF w n
+      ((s.wd w).path.getD ((s.wd w).path.length - 2) 0) dir hwF hlF hnF
+    generalize afterTraverse (vis g sF) sF w n ((s.wd w).path.getD ((s.wd w).path.length - 2) 0) dir = r at a
+    have hw' : w < r.1.workers.length := by rw [a.workersLen]; exact hwF
+    obtain ⟨s1, e2, fl⟩ := r
+    have loopCase : ∀ evs', ((runLoop g w fuel s1 evs').1.wd w).pc = .bounce →
+        ∃ k, 10 ≤ k ∧ (runLoop g w fuel s1 evs').2.getLast? = some (Event.sleep (g.worker w).id k) :=
+      fun evs' => runLoop_sleep g hsym w fuel s1 evs' hw' (fun h0 => by omega)
+    cases fl with
+    | raise what =>
+      dsimp only
+      intro hb
+      rw [wd_setWd_eq s1 w _ hw'] at hb
+      cases hb
+    | cont => exact loopCase _
+    | suspend => exact loopCase _
+    | exit => exact loopCase _
+
+theorem resumeTest_sleep (g : Graph) (hsym : EdgeSym g) (s : State) (w n : Nat) (phase : Phase) (dir : Dir) (uid : String)
+    (tag wait : Nat) (out : Outcome) (fuel : Nat) (hf : 0 < fuel) (h : PInv g s) (hpcw : (s.wd w).pc.node? = some n) :
+    ((resumeTest g s w n phase dir uid tag wait out fuel).1.wd w).pc = .bounce →
+      ∃ k, 10 ≤ k ∧ (resumeTest g s w n phase dir uid tag wait out fuel).2.getLast? =
+        some (Event.sleep (g.worker w).id k) := by
+  rw [resumeTest_eq]
+  obtain ⟨r1, r2, r3⟩ := reportOutcome_frame g s w n phase uid wait out
+  have bA : BookOnly s (reportOutcome g s w n phase uid wait out).1 :=
+    ⟨by rw [r2], r3, fun v => by unfold State.wd; rw [r2]; exact ⟨rfl, rfl⟩, fun i => by unfold State.nd; rw [r1]⟩
+  have hA := h.bookOnly bA
+  have hpcA : ((reportOutcome g s w n phase uid wait out).1.wd w).pc.node? = some n := by rw [(bA.wd w).2]; exact hpcw
+  generalize (reportOutcome g s w n phase uid wait out).1 = sa at hA hpcA bA
+  have hwA : w < sa.workers.length := by
+    obtain ⟨_, _, hlen⟩ := hA.testOwn w n hpcA
+    exact lt_of_path_ne_nil sa w (by intro h0; rw [h0] at hlen; simp at hlen)
+  have waitCase : ∀ k (evs' : List Event),
+      ((sa.setWd w (fun d => { d with pc := .test n phase dir uid tag k })).wd w).pc = .bounce →
+        ∃ k', 10 ≤ k' ∧ evs'.getLast? = some (Event.sleep (g.worker w).id k') := by
+    intro k evs' hb
+    rw [wd_setWd_eq sa w _ hwA] at hb
+    cases hb
+  split
+  · next st0 dur _ =>
+    have bB := recordResult_frame sa w n phase (if (phase == Phase.pre) = true then (s.wd w).preName else (g.node n).name) uid tag st0 dur
+    exact continueAfter_sleep g hsym w n phase dir fuel hf _
+      (recordResult sa w n phase (if (phase == Phase.pre) = true then (s.wd w).preName else (g.node n).name) uid tag st0 dur).2
+      (reportOutcome g s w n phase uid wait out).2
+      (hA.bookOnly bB) (by rw [(bB.wd w).2]; exact hpcA)
+  · split
+    · exact waitCase _ _
+    · split
+      · exact waitCase _ _
+      · exact continueAfter_sleep g hsym w n phase dir fuel hf sa false
+          (reportOutcome g s w n phase uid wait out).2 hA hpcA
+
+/-- **a step that ends in the back-off sleep announces a sleep of at least 0.1 s as its last event** -/
+theorem resume_sleep (g : Graph) (hsym : EdgeSym g) (s : State) (w : Nat) (out : Outcome) (fuel : Nat) (hf : 0 < fuel)
+    (hw : w < g.workers.length) (h : PInv g s) (hb : ((resume g s w out fuel).1.wd w).pc = .bounce) :
+    ∃ k, 10 ≤ k ∧ (resume g s w out fuel).2.getLast? = some (Event.sleep (g.worker w).id k) := by
+  have hws : w < s.workers.length := by rw [h.wlen]; exact hw
+  revert hb
+  unfold resume
+  split
+  · exact runLoop_sleep g hsym w fuel s [] hws (fun h0 => by omega)
+  · exact runLoop_sleep g hsym w fuel s [] hws (fun h0 => by omega)
+  · next n phase dir uid tag wait heq =>
+    exact resumeTest_sleep g hsym s w n phase dir uid tag wait out fuel hf h (by rw [heq]; rfl)
+  · next heq => intro hb; rw [heq] at hb; cases hb
+  · next heq => intro hb; rw [heq] at hb; cases hb
 
 end I2N.Trav.Fair
